@@ -9,8 +9,11 @@ from harness import common as C
 from harness import probes
 
 PROP = "C07"
-TARGETS = ["IbicusModel.Props.C07", "IbicusModel.Props.Calendar", "IbicusModel.Props.CalendarAgree"]
-GEN = ["Windows"]
+TARGETS = ["IbicusModel.Props.C07", "IbicusModel.Props.Calendar", "IbicusModel.Props.CalendarAgree", "IbicusModel.Lemmas.GenLoops"]
+GEN = ["Windows", "Loops"]
+# calendar tier A: day_of_year / month / year / season / inferred dates / yearly means as data (translator/extract_calendar.py)
+TARGETS += ["IbicusModel.Lemmas.GenCalendarFns"]
+GEN += ["CalendarFns"]
 
 
 # ------------------------------------------------------------------ case generation
@@ -224,6 +227,13 @@ def run(tier, res, force_search=False):
     sk_lines, sk_expect = probes.skeleton_cases(rng, n_skel, tier, res, problems_all)
     lines += sk_lines
     expect += sk_expect
+    # the property's consequence "a defined value at every step for finite well-formed input" also rules out an exception: every
+    # skeleton case is well-formed (non-empty dated series, 1 <= step <= length, a total probe window function), so a raise of the
+    # real apply_location is a violation carrying the case, not only a broken correspondence with the model
+    for what, case, exp in sk_expect:
+        if exp.startswith("error"):
+            problems_all.append((f"{what.split(':')[-1]}: the real apply_location raises {exp[6:]} on finite well-formed input (total probe window function)",
+                                 {"what": "apply_location-raises/" + what.split(":")[-1], **case}))
 
     mismatches = []
     try:
@@ -248,6 +258,21 @@ def run(tier, res, force_search=False):
         n_deb *= 3
     probes.debiasers_finite(rng, n_deb, res, problems_all)
     probes.leap_day_windows(rng, res, problems_all)
+
+    # ---- the smallest window samples (own PRNG streams: the cases above keep theirs).  Quantifier covered: every admissible
+    # window length / step length INCLUDING one-day and one-year windows, the leap-year-only year sets of ONE or two years that
+    # a one-day window on day 366 selects from a future period of a few years, series of one to three steps / one step per
+    # year: windows whose sample of the corrected series is a single step must still assign it (exactly once, from that sample)
+    n_comp = 32 if tier == "quick" else 240
+    n_small = 2 if tier == "quick" else 10
+    if force_search or not lean_ok or mismatches:
+        n_comp, n_small = 3 * n_comp, 3 * n_small
+    import time as _time
+
+    t0 = _time.time()
+    probes.composed_window_cases(random.Random(C.seed() * 7919 + 71), n_comp, res, problems_all)
+    probes.debiasers_small_samples(random.Random(C.seed() * 7919 + 73), n_small, res, problems_all)
+    res.extra["small_window_samples"] = {"composed_cases": n_comp, "real_debiaser_cases": n_small, "wall_s": round(_time.time() - t0, 2)}
 
     # ---- thorough: exhaustive enumeration of (first day, last day, step) on the real centre function (supporting test)
     if tier == "thorough":
